@@ -151,8 +151,8 @@ impl ChannelManager {
     let page = page.unwrap_or(1);
     let page_size = count.unwrap_or(20).min(MAX_CHANNELS_PAGE_SIZE);
 
-    let start = ((page - 1) * page_size) as usize;
-    let end = (page * page_size) as usize;
+    let start = (page.saturating_sub(1) as usize).saturating_mul(page_size as usize);
+    let end = (page as usize).saturating_mul(page_size as usize);
 
     let paginated_channels =
       if start < channel_list.len() { channel_list[start..end.min(channel_list.len())].to_vec() } else { Vec::new() };
@@ -234,8 +234,8 @@ impl ChannelManager {
     let page = page.unwrap_or(1);
     let page_size = count.unwrap_or(20).min(MAX_MEMBERS_PAGE_SIZE);
 
-    let start = ((page - 1) * page_size) as usize;
-    let end = (page * page_size) as usize;
+    let start = (page.saturating_sub(1) as usize).saturating_mul(page_size as usize);
+    let end = (page as usize).saturating_mul(page_size as usize);
 
     let paginated_members =
       if start < member_list.len() { member_list[start..end.min(member_list.len())].to_vec() } else { Vec::new() };
